@@ -7,6 +7,7 @@ import trace_abs
 TRACE_PROPS = {"C01", "C02", "C03", "C04", "C05", "C06", "C07", "C08", "C09", "C13", "C14"}
 INBOUND = {"C04", "C13"}
 CONTENT_PROPS = {"C01", "C17"}
+DISC_PROPS = {"C09"}
 # guards of the model that stand for a clause of another property as well (C02: same identifier / same bytes on retransmission; C09: nothing succeeds after a finished disconnect)
 RELATED = {"C02": ("C03", "C08"), "C09": ("C05",)}
 
@@ -18,6 +19,8 @@ def check(ctx, prop, collected):
         rel += check_engine(ctx, prop, collected, "tracein " if prop in INBOUND else "trace ",
                             trace_abs.abstract_in if prop in INBOUND else trace_abs.abstract,
                             "Model/TraceIn.lean" if prop in INBOUND else "Model/Trace.lean", accept_tags=RELATED.get(prop))
+    if prop in DISC_PROPS:
+        rel += check_engine(ctx, prop, collected, "tracedisc ", trace_abs.abstract_disc, "Model/TraceDisc.lean")
     if prop in CONTENT_PROPS:
         rel += check_engine(ctx, prop, collected, "tracecontent ", trace_abs.abstract_content, "Model/TraceContent.lean", accept_tags=("C17", prop))
     return rel
